@@ -6,7 +6,7 @@ GEN = 'Generated-input search (pgregory.net/rapid, sharded over processes, seeds
 KIT = 'Trusted: the oracle kit (exact integer cross products / winding numbers, math/big areas, float distances with a guard band), unit-tested against math/big in setup_cmd.'
 CLAIMED = {
  # id: (technique, level text, level note, design ref)
- 'C01': ('property-based testing (rapid): generated closed path sets x 16 (clip type, fill rule) x 3 entry points against an exact winding-number oracle at probe points outside the 2-unit band',
+ 'C01': ('property-based testing (rapid): generated closed path sets (generic, lattice, dense, boxes, Y-level and octilinear-triangle families) x 16 (clip type, fill rule) x 4 entry points against an exact winding-number oracle at probe points outside the 2-unit band',
          GEN + ' Every case is judged against the meaning of the operation (exact winding number of integer probe points placed in the faces of the arrangement), not against golden vertex lists.',
          KIT + ' Faces thinner than ~3 units are not probed (inside the band). Listed finding F30 (input class kit.NearDegenerate) is excused and counted; F29 (discarded lobes) was repaired and is not excused any more.', 'DESIGN.md section 7 C01'),
  'C02': ('property-based testing (rapid): validity predicate over generated boolean results (vertex rules, winding in {0,1} off the solution edges, re-union and option metamorphic relations)',
@@ -14,25 +14,25 @@ CLAIMED = {
  'C03': ('property-based testing (rapid) over a grammar of every exported operation with hostile arguments and with the dense polygon families of the boolean checks; in-process watchdog for calls that do not return',
          GEN + ' Every call is judged for: no panic (except the documented precision-range panic), Execute* returns true, returns within 10 s.',
          'The 10 s deadline uses the wall clock (hang detection only). Resource-shaped preconditions are listed in the evidence assumptions.', 'DESIGN.md section 7 C03'),
- 'C04': ('property-based testing (rapid): PolyTree vs flat Paths multiset equality plus nesting oracle (interior probe of every node -> innermost containing polygon must be the parent; IsHole <=> orientation <=> level parity), 64-bit and D variants',
+ 'C04': ('property-based testing (rapid): PolyTree vs flat Paths multiset equality plus nesting oracle over generated inputs (C01 families, nested boxes, tips-and-bars: tips exactly on the scanline of a horizontal edge of a neighbouring polygon) (interior probe of every node -> innermost containing polygon must be the parent; IsHole <=> orientation <=> level parity), 64-bit and D variants',
          GEN, KIT + ' Listed findings excused: F30 (near-degenerate input), F32 (node touches the polygon it is nested under/beside), F38 (input has coincident edges).', 'DESIGN.md section 7 C04'),
- 'C05': ('property-based testing (rapid): generated simple polygon sets with holes (verified exactly in the generator) x delta x join types; distance/winding oracle at ring probes along normals and around vertices',
+ 'C05': ('property-based testing (rapid): generated simple polygon sets with holes (stars, combs, smooth 150-420 vertex ellipses; verified exactly in the generator; extents 30 .. 2^37) x delta x join types x offset-object options; distance/winding oracle at ring probes along normals and around vertices',
          GEN, KIT + ' tol = 2 + effective arc tolerance; listed findings F39 (Bevel near-straight mitre), F40 (compound rounding up to 2.75 units) are excused by re-judging with the relaxed constant.', 'DESIGN.md section 7 C05'),
- 'C06': ('property-based testing (rapid): generated rectangles x closed paths biased to corners/edges of the rectangle, exact winding-number oracle inside/outside the rectangle',
+ 'C06': ('property-based testing (rapid): generated rectangles (extent 20 .. 2^40) x closed paths biased to corners/edges of the rectangle, exact winding-number oracle inside/outside the rectangle',
          GEN, KIT, 'DESIGN.md section 7 C06'),
- 'C07': ('property-based testing (rapid): differential test of every floating-point entry point against its 64-bit counterpart on the quantised input (17 precisions, fractional inputs without ties; two tie-mode rectangle operations in which bounds and vertices are exact ties and the reference is the path quantiser of the library), plus precision-range panics',
+ 'C07': ('property-based testing (rapid): differential test of every floating-point entry point (functions, engine object incl. the scale-function variants, tree form with open subjects, inflate with miter limit and arc tolerance) against its 64-bit counterpart on the quantised input (17 precisions, fractional inputs without ties; two tie-mode rectangle operations in which bounds and vertices are exact ties and the reference is the path quantiser of the library), plus precision-range panics',
          GEN, 'The 64-bit counterparts are trusted here (they are judged by C01..C11); 4 ulp tolerance for the division by 10^p.', 'DESIGN.md section 7 C07'),
- 'C08': ('property-based testing (rapid): Minkowski sum/difference against the union of parallelograms built from the definition (exact winding), sum(A,B) vs sum(B,A)',
+ 'C08': ('property-based testing (rapid): Minkowski sum/difference (magnitudes up to 2^40, up to ~3000 parallelograms) against the union of parallelograms built from the definition (exact winding), sum(A,B) vs sum(B,A)',
          GEN, KIT + ' F30 is excused through the class predicate evaluated on the parallelograms handed to the internal union.', 'DESIGN.md section 7 C08'),
- 'C09': ('property-based testing (rapid): open subject polylines x closed clips; coverage oracle at sample points of the subject segments (exact winding of the clip region), sub-polyline test, closed solution with vs. without open paths, tree form',
+ 'C09': ('property-based testing (rapid): open subject polylines x closed clips; coverage oracle at sample points of the subject segments (exact winding of the clip region), sub-polyline test, closed solution with vs. without open paths, tree form (64-bit and D) including its open solution, open subjects through AddPaths and through AddPath',
          GEN, KIT + ' "Alter" is judged at region level outside the 2-unit band (vertex lists may differ within the band, counted in the evidence). F30 excused by input class.', 'DESIGN.md section 7 C09'),
- 'C10': ('property-based testing (rapid): open polylines x end types x join types x delta; distance oracle at ring probes (segments, caps, joins), Butt rule from segment rectangles',
+ 'C10': ('property-based testing (rapid): open polylines (extent 40 .. 2^38) x end types x join types x delta; distance oracle at ring probes (segments, caps, joins), Butt rule from segment rectangles',
          GEN, KIT + ' Listed findings: F19 (no end caps; probes within k*delta of the first/last segment excluded), F41, F43, F39, F30 via the offset-raw hook.', 'DESIGN.md section 7 C10'),
- 'C11': ('property-based testing (rapid): generated rectangles x open polylines; sub-polyline / order / coverage oracle',
+ 'C11': ('property-based testing (rapid): generated rectangles (extent 20 .. 2^40) x open polylines; sub-polyline / order / coverage oracle',
          GEN, KIT + ' Coverage is judged at sample points farther than 5 units from the rectangle boundary.', 'DESIGN.md section 7 C11'),
- 'C12': ('property-based testing (rapid): generated histories (AddPaths / Execute / ExecuteOC / ExecutePolyTree / Execute64 with dirty solution arguments) on Clipper64, ClipperD, ClipperOffset, compared after every execute with a fresh engine given the same AddPaths calls; caller-owned slices compared with deep copies (also for every call of the C03 grammar)',
+ 'C12': ('property-based testing (rapid): generated histories (AddPaths / Execute / ExecuteOC / ExecutePolyTree / Execute64 with any clip type incl. NoClip and out-of-range values, dirty solution arguments and dirty tree arguments) on Clipper64, ClipperD, ClipperOffset, compared after every execute with a fresh engine given the same AddPaths calls; caller-owned slices compared with deep copies (also for every call of the C03 grammar)',
          GEN, 'Deep equality is demanded unless paths were added after the first execute (then an already sorted minima list is sorted again by an unstable sort, and results are compared as regions).', 'DESIGN.md section 7 C12'),
- 'C13': ('property-based testing (rapid): metamorphic (translate up to 2^52 / scale up to 2^61) plus absolute 128-bit winding oracle for boolean ops; rect clip, inflate, Area64, PointInPolygon, SimplifyPath64 under the same transforms',
+ 'C13': ('property-based testing (rapid): metamorphic (translate up to 2^52 / scale up to 2^61) plus absolute 128-bit winding oracle for boolean ops; rect clip, inflate, Area64, PointInPolygon, SimplifyPath64 (closed and open) under the same transforms',
          GEN, KIT + ' Listed findings: F46 (offsetting beyond 2^50), F30. F27 (int64 overflow beyond extent 2^31) was repaired: magnitudes up to 2^61 are judged strictly.', 'DESIGN.md section 7 C13'),
  'C14': ('property-based testing (rapid): hostile operand pool vs math/big oracles for Area64, IsPositive64, PointInPolygon, GetBounds64, isCollinear, productsAreEqual, CrossProduct',
          GEN, KIT + ' Listed finding F5 (triSign(1)==0) is excused for operands equal to +1 only.', 'DESIGN.md section 7 C14'),
@@ -42,7 +42,7 @@ CLAIMED = {
          GEN, KIT, 'DESIGN.md section 7 C16'),
  'C17': ('property-based testing (rapid): metamorphic relations over spelling transforms (permute, rotate, repeat, reverse, swap, 8 lattice symmetries) and repeated identical calls',
          GEN, KIT + ' The library is compared with itself; listed finding F30 excused by input class.', 'DESIGN.md section 7 C17'),
- 'C18': ('property-based testing (rapid) under the Go race detector: generated batches of API calls on shared read-only inputs, 2-8 goroutines first (first round released together, so that lazily initialised state is first touched concurrently), sequential results afterwards',
+ 'C18': ('property-based testing (rapid) under the Go race detector: generated batches of API calls on shared read-only inputs (path slices and one shared delta-callback variable), 2-8 goroutines first (first round released together, so that lazily initialised state is first touched concurrently), sequential results afterwards',
          GEN + ' A race report (GORACE=halt_on_error=1) or a result that differs from the sequential baseline is a violation.',
          'The schedule is not controlled; the race detector flags unordered conflicting accesses that actually execute. Cases killed by the detector are reported through a journal file and are not shrunk.', 'DESIGN.md section 7 C18'),
  'C19': ('property-based testing (rapid): metamorphic set identities between the four clip types (exact areas, point membership), including inputs with thousands of vertices in the thorough tier',
